@@ -20,12 +20,9 @@ pub fn get() -> FunctionDefinitions {
                 )
                 {
                     if let Ok(index) = TryInto::<usize>::try_into(index) {
-                        if str.len() < index {
-                            Some(str.into())
-                        } else {
-                            let head = str[index..].to_string();
-                            Some(head.into())
-                        }
+                        let skip = str.chars().count().saturating_sub(index);
+                        let tail: String = str.chars().skip(skip).collect();
+                        Some(tail.into())
                     } else {
                         None
                     }
